@@ -643,6 +643,57 @@ class BuiltinsMixin:
             self.raise_exc(KeyError, 'set.remove', fr, node)
         self.bm_set_discard(b, args, kwargs, fr, node)
 
+    def _set_arg_term(self, b, v):
+        if isinstance(v, Box) and v.term is None and v.kind in ('set', 'list'):
+            v = tuple(v.items)
+        if isinstance(v, (tuple, list)):
+            ety = b.elem or (self.ty_of(v[0]) if v else None)
+            if ety is None:
+                raise Untranslatable('set operation with unknown element type')
+            t = z3.EmptySet(ety.z3sort())
+            for x in v:
+                t = z3.SetAdd(t, self.term(x, ety))
+            return t, ety
+        ty = self.ty_of(v)
+        if isinstance(ty, TSeq):
+            return self.seq_to_set(SV(self.term(v), ty)), ty.elem
+        if isinstance(ty, TSet):
+            return self.term(v), ty.elem
+        raise Untranslatable('set operation argument')
+
+    def _set_inplace(self, b, args, op):
+        self.mutation_counter += 1
+        for v in args:
+            t, ety = self._set_arg_term(b, v)
+            if b.elem is None:
+                b.elem = ety
+            self.box_symbolize(b, TSet(b.elem))
+            b.term = op(b.term, t)
+
+    def bm_set_difference_update(self, b, args, kwargs, fr, node):
+        self._set_inplace(b, args, z3.SetDifference)
+
+    def bm_set_intersection_update(self, b, args, kwargs, fr, node):
+        self._set_inplace(b, args, z3.SetIntersect)
+
+    def _set_pure(self, b, args, op):
+        nb = Box('set', items=list(b.items) if b.items is not None else None, term=b.term, elem=b.elem)
+        self._set_inplace(nb, args, op)
+        return nb
+
+    def bm_set_union(self, b, args, kwargs, fr, node):
+        return self._set_pure(b, args, z3.SetUnion)
+
+    def bm_set_difference(self, b, args, kwargs, fr, node):
+        return self._set_pure(b, args, z3.SetDifference)
+
+    def bm_set_intersection(self, b, args, kwargs, fr, node):
+        return self._set_pure(b, args, z3.SetIntersect)
+
+    def bm_set_issubset(self, b, args, kwargs, fr, node):
+        t, ety = self._set_arg_term(b, args[0])
+        return self.wrap_bool(z3.IsSubset(self.term(b, TSet(b.elem or ety)), t))
+
     def bm_set_copy(self, b, args, kwargs, fr, node):
         return Box('set', items=list(b.items) if b.items is not None else None, term=b.term, elem=b.elem)
 
